@@ -125,6 +125,29 @@ def tangent(h, n=2):
     h.holds("direction points towards q (not away from it)", g @ J @ w > 0)
 
 
+def tangent_composite(h, n=1):
+    """a composite of two (p, q) pairs with independent rescalings: each unit's tangent equals the unit result"""
+    x, y = _interior(h, 'x', n, (2,)), _interior(h, 'y', n, (2,))
+    for k in range(2):
+        if h.is_sym():
+            h.assume(_any([x[k][i] != y[k][i] for i in range(n)]), 'distinct points')
+        else:
+            h.assume(np.abs(x[k] - y[k]).max() > 1e-3, 'distinct points')
+    lam, mu = _scales(h, 'lam', (2,)), _scales(h, 'mu', (2,))
+    P = hyperbolic.Point(_scaled(_hom(x), lam))
+    Q = hyperbolic.Point(_scaled(_hom(y), mu))
+    tv = P.unit_tangent_towards(Q)
+    J = np.diag([-1] + [1] * n)
+    for k in range(2):
+        pu, qu = _hom(x[k]), _hom(y[k])
+        w = qu - ((pu @ J @ qu) / (pu @ J @ pu)) * pu
+        s = (1 if bool(lam[k] > 0) else -1)
+        g = s * tv.vector[k]
+        cross = [g[i] * w[j] - g[j] * w[i] for i in range(n + 1) for j in range(i + 1, n + 1)]
+        h.eq(f"unit {k}: direction along the geodesic through q", np.array(cross, dtype=object if h.is_sym() else float), 0, validate=False)
+        h.holds(f"unit {k}: direction points towards q", g @ J @ w > 0)
+
+
 def transform(h, n=2):
     d = n + 1
     v = h.arr('v', (3, d))
